@@ -78,8 +78,11 @@ def did_open(srv, path, text=None):
     notify(srv, "textDocument/didOpen", {"textDocument": td})
 
 
-def did_change(srv, path, changes):
-    notify(srv, "textDocument/didChange", {"textDocument": {"uri": uri(path)}, "contentChanges": changes})
+def did_change(srv, path, changes, version=None):
+    td = {"uri": uri(path)}
+    if version is not None:
+        td["version"] = version
+    notify(srv, "textDocument/didChange", {"textDocument": td, "contentChanges": changes})
 
 
 def did_save(srv, path):
